@@ -10,13 +10,14 @@ ids=("$@"); if [ ${#ids[@]} -eq 0 ]; then ids=($(ls "$ROOT/seeded")); fi
 git -C /repo worktree remove --force "$T" 2>/dev/null; rm -rf "$T"
 git -C /repo worktree add -q --detach "$T" HEAD || exit 2
 for id in "${ids[@]}"; do
-  d="$ROOT/seeded/$id"; [ -f "$d/patch.diff" ] || continue
+  d="$ROOT/seeded/$id"; [ -f "$d/patch.diff" ] && [ -f "$d/meta.json" ] || continue
   prop=$(python3 -c "import json;print(json.load(open('$d/meta.json'))['breaks_property'])")
   (cd "$T" && git checkout -q -- . && git clean -fdq -e .verif && git apply "$d/patch.diff") || { echo "$id: patch does not apply"; continue; }
   start=$(date +%s)
-  "$ROOT/tools/run_on_tree.sh" "$T" "$prop" quick > "$T/.verif/sweep.log" 2>&1; rc=$?
+  LOG=/tmp/sweep-run.log
+  "$ROOT/tools/run_on_tree.sh" "$T" "$prop" quick > "$LOG" 2>&1; rc=$?
   secs=$(( $(date +%s) - start ))
-  python3 - "$d/meta.json" "$rc" "$secs" "$T/.verif/sweep.log" "$(git -C /repo rev-parse --short HEAD)" "$(git -C "$ROOT" rev-parse --short HEAD)" <<'PY'
+  python3 - "$d/meta.json" "$rc" "$secs" "$LOG" "$(git -C /repo rev-parse --short HEAD)" "$(git -C "$ROOT" rev-parse --short HEAD)" <<'PY'
 import json,sys,re
 meta_p,rc,secs,log,repo_head,verif_head=sys.argv[1:7]
 t=open(log,errors='replace').read()
@@ -36,4 +37,4 @@ json.dump(m,open(meta_p,'w'),indent=1)
 print(m['id'],'rc',rc,r.get('sub_check'),r.get('signature'),secs,'s')
 PY
 done
-git -C /repo worktree remove --force "$T"; rm -rf "$T"
+git -C /repo worktree remove --force "$T"; rm -rf "$T" /tmp/sweep-run.log
